@@ -25,6 +25,7 @@ def dispatch (j : Json) : Except String Json := do
   match op with
   | "cc" => handleCC j
   | "cc_sql" => handleCCSql j
+  | "multi_sql" => handleMultiSql j
   | "multi" => handleMulti j
   | "block" => handleBlock j
   | "score" => handleScore j
